@@ -34,7 +34,12 @@ Inductive ccase :=
             (closed : list nat)     (* PullID threads whose channel had been closed by the time of the sentinel *)
 (* a free-running history: call, invocation stamp, response stamp, result *)
 | CaseHist (idf : option idf) (vinit : option fmsg) (cinit : list (string * fmsg * Z))
-           (hist : list (fcall * Z * Z * fout)) (final_v : option fmsg) (final_c : list (string * fmsg)).
+           (hist : list (fcall * Z * Z * fout)) (final_v : option fmsg) (final_c : list (string * fmsg))
+(* a free-running program with subscribers (no gates, no schedule): the calls of prog were issued by
+   goroutines running free on all cores; observed as in CaseSched.  Judged by the oracle alone. *)
+| CaseFree (idf : option idf) (vinit : option fmsg) (cinit : list (string * fmsg * Z))
+           (prog : list fcall) (results : list fout) (final_v : option fmsg) (final_c : list (string * fmsg))
+           (vstreams : list (nat * list ovchange)) (cstreams : list (nat * list ochange)) (closed : list nat).
 
 (* ---------- instantiation ---------- *)
 Notation lcall := (call fmsg fwriter (list fld)).
@@ -55,10 +60,14 @@ Definition init_v (vinit : option fmsg) : vstate fmsg := mkV vinit (fclock 0) 1.
 Definition init_c (cinit : list (string * fmsg * Z)) : cstate fmsg :=
   mkC (map (fun p => (fst (fst p), mkItem (snd (fst p)) (snd p))) cinit) 0.
 
-Definition f_run (v0 : bool) (i : option idf) (prog : list fcall) (sched : list nat)
+(* v0: the pinned create path / no commit-number filter; v1: no turnstile (publication not ordered) *)
+Definition f_run_gen (v0 v1 : bool) (i : option idf) (prog : list fcall) (sched : list nat)
            (vinit : option fmsg) (cinit : list (string * fmsg * Z)) :=
-  run fmsg_eqb fzero fw_validate fw_merge fclock str_ltb (idfun_of i) v0 (map to_call prog) sched
+  run fmsg_eqb fzero fw_validate fw_merge fclock str_ltb (idfun_of i) v0 v1 (map to_call prog) sched
       (init (map to_call prog) (init_v vinit) (init_c cinit)).
+Definition f_run (v0 : bool) := f_run_gen v0 false.
+(* the code before the turnstile: pinned behaviour before the fix of known finding C03/1 *)
+Definition f_run_v1 := f_run_gen false true.
 
 Definition f_spec_call (i : option idf) :=
   spec_call fmsg_eqb fzero fw_validate fw_merge fclock str_ltb (idfun_of i) (rmask := list fld).
@@ -139,18 +148,19 @@ Definition id_at (it : list string) (z : Z) : string := nth (Z.to_nat z) it ""%s
 Definition tok_val (vt : list fmsg) (m : fmsg) : Z := index_of fmsg_eqb m vt 0.
 Definition val_at (vt : list fmsg) (z : Z) : option fmsg := if z <? 0 then None else nth_error vt (Z.to_nat z).
 
-Definition f_lrun (v0 : bool) (i : option idf) (prog : list fcall) (sched : list nat)
+Definition f_lrun_gen (v0 v1 : bool) (i : option idf) (prog : list fcall) (sched : list nat)
            (vinit : option fmsg) (cinit : list (string * fmsg * Z)) : state fmsg (list fld) * list flsub :=
   let cprog := map to_call prog in
   let ss := classify prog (fun _ => O) sched in
   let s00 := init cprog (init_v vinit) (init_c cinit) in
-  let splain := run fmsg_eqb fzero fw_validate fw_merge fclock str_ltb (idfun_of i) v0 cprog (threads_of ss) s00 in
+  let splain := run fmsg_eqb fzero fw_validate fw_merge fclock str_ltb (idfun_of i) v0 v1 cprog (threads_of ss) s00 in
   let vt := tbl_vals splain in
   let it := tbl_ids splain in
   let '(s, ls) := lrun fr_filter None (tok_id it) (id_at it) (tok_val vt) (val_at vt)
-                       fmsg_eqb fzero fw_validate fw_merge fclock str_ltb (idfun_of i) v0 cprog
+                       fmsg_eqb fzero fw_validate fw_merge fclock str_ltb (idfun_of i) v0 v1 cprog
                        (lossy_of_prog i prog) ss (s00, []) in
   (s, map (drained fr_filter None (id_at it) (val_at vt)) ls).
+Definition f_lrun (v0 : bool) := f_lrun_gen v0 false.
 
 Definition lc_matches (c : flchange) (o : ochange) : bool :=
   String.eqb (lc_id c) (oc_id o) && (lc_time c =? oc_time o) && (lc_kind c =? oc_kind o) &&
@@ -208,6 +218,7 @@ Definition agrees (c : ccase) : bool :=
                      end
                  end) (st_csubs s)
   | CaseHist _ _ _ _ _ _ => true      (* no schedule to compare: judged by the oracle alone *)
+  | CaseFree _ _ _ _ _ _ _ _ _ _ => true
   end.
 
 (* ---------- C02: the history is linearizable (oracle: search over one-at-a-time orders,
@@ -291,6 +302,7 @@ Definition C02_ok (c : ccase) : bool :=
       linearizable_b i vinit cinit (hist_of 0 prog results sched) fv fc
   | CaseHist i vinit cinit hist fv fc =>
       linearizable_b i vinit cinit (map (fun p => mkH (fst (fst (fst p))) (snd (fst (fst p))) (snd (fst p)) (snd p)) hist) fv fc
+  | CaseFree _ _ _ _ _ _ _ _ _ _ => true
   end.
 
 (* ---------- C03: the folded view is the final read ---------- *)
@@ -333,33 +345,37 @@ Definition pid_ok (id : string) (ro : fro) (stream : list ovchange) (is_closed :
 Definition pid_ro (t : nat) (prog : list fcall) : option (string * fro) :=
   match nth_error prog t with Some (FSubID id ro) | Some (FSubL (Some id) ro) => Some (id, ro) | _ => None end.
 
+(* every subscriber's fold of what it received is the final read (model-free) *)
+Definition c03_pred (i : option idf) (prog : list fcall) (fv : option fmsg) (fc : list (string * fmsg))
+           (vstreams : list (nat * list ovchange)) (cstreams : list (nat * list ochange)) (closed : list nat) : bool :=
+  forallb (fun p => match pid_ro (fst p) prog with
+                    | Some (id, ro) => pid_ok (apply_id (idfun_of i) id) ro (snd p) (existsb (Nat.eqb (fst p)) closed) fc
+                    | None =>
+                        match sub_ro (fst p) prog with
+                        | Some (true, ro) => vview_ok ro (snd p) fv
+                        | _ => false end
+                    end) vstreams &&
+  forallb (fun p => match sub_ro (fst p) prog with
+                    | Some (false, ro) => cview_ok ro (snd p) fc
+                    | _ => false end) cstreams.
+
 Definition C03_ok (c : ccase) : bool :=
   match c with
   | CaseSched i vinit cinit prog sched results fv fc vstreams cstreams closed =>
-      forallb (fun p => match pid_ro (fst p) prog with
-                        | Some (id, ro) => pid_ok (apply_id (idfun_of i) id) ro (snd p) (existsb (Nat.eqb (fst p)) closed) fc
-                        | None =>
-                            match sub_ro (fst p) prog with
-                            | Some (true, ro) => vview_ok ro (snd p) fv
-                            | _ => false end
-                        end) vstreams &&
-      forallb (fun p => match sub_ro (fst p) prog with
-                        | Some (false, ro) => cview_ok ro (snd p) fc
-                        | _ => false end) cstreams
+      c03_pred i prog fv fc vstreams cstreams closed
+  | CaseFree i vinit cinit prog results fv fc vstreams cstreams closed =>
+      c03_pred i prog fv fc vstreams cstreams closed
   | CaseHist _ _ _ _ _ _ => true
   end.
 
-(* known finding C03/1: a publication overtook an earlier commit on the same resource (Set and
-   Update publish after releasing the lock) — decided on the model's run of the schedule *)
-Definition reordered_class (c : ccase) : option Z :=
-  match c with
-  | CaseSched i vinit cinit prog sched _ _ _ _ _ _ =>
-      if st_reordered (fst (f_lrun model_v0 i prog sched vinit cinit)) then Some 1 else None
-  | _ => None
-  end.
-
+(* Known finding C03/1 (a publication overtook an earlier commit: Set and Update published after
+   releasing the lock with nothing ordering the publications) is FIXED by the turnstile
+   (pkg/resource/turnstile.go).  The model's publish steps are enabled in commit order only, so a
+   schedule in which a publication overtakes an earlier commit makes the model stutter: `agrees`
+   fails, and with a stale view C03_ok fails as well -- verdict 3, a hard violation.  No
+   observation is mapped to a known class any more. *)
 Definition judge02 (c : ccase) : Z := verdict (agrees c) (C02_ok c) None.
-Definition judge03 (c : ccase) : Z := verdict (agrees c) (C03_ok c) (reordered_class c).
+Definition judge03 (c : ccase) : Z := verdict (agrees c) (C03_ok c) None.
 
 (* the pinned commit's create path, for replaying the two-Adds witness *)
 Definition agrees_v0 (c : ccase) : bool :=
@@ -381,3 +397,7 @@ Definition debug_case (c : ccase) :=
             map (fun l => (ls_tid l, ls_gotc l, ls_gotv l, ls_closed l)) ls)
   | _ => None
   end.
+
+(* is the next step of thread t enabled (a publication is, only when every earlier commit has left) *)
+Definition f_enabled (i : option idf) (prog : list fcall) (t : nat) (s : state fmsg (list fld)) : bool :=
+  enabled fmsg_eqb fzero fw_validate fw_merge fclock str_ltb (idfun_of i) false false (map to_call prog) t s.
